@@ -184,11 +184,11 @@ def run_success(args):
         wd.advance(1.2)
         sm = edev.summarize(wd, env)
         owned = None
-        for p in wd.reactor._peers.values():
+        for p in wd.peers_map().values():
             if p.neighbor.session.peer_address.top() == '127.0.0.2' and p.proto and p.proto.connection and p.proto.connection.io is not None:
                 owned = p.proto.connection.io.index
         if change == 'remove':
-            gone = not any(p.neighbor.session.peer_address.top() == '127.0.0.2' for p in wd.reactor._peers.values())
+            gone = not any(p.neighbor.session.peer_address.top() == '127.0.0.2' for p in wd.peers_map().values())
             open_socks = [s for s in wd.sockets if s.connected and not s.closed and s.remote[0] == '127.0.0.2']
             if not gone or open_socks:
                 viols.append(('removed-neighbor-still-there', f'neighbor removed from the configuration but peer gone={gone}, open connections={len(open_socks)}'))
@@ -241,7 +241,7 @@ def snapshot(wd):
     out = {}
     out['neighbors'] = sorted(wd.cfg.neighbors)
     peers = {}
-    for k, p in wd.reactor._peers.items():
+    for k, p in wd.peers_map().items():
         rib = p.neighbor.rib.outgoing
         peers[k] = dict(
             neighbor_id=id(p.neighbor),
